@@ -21,11 +21,11 @@ def path_value(name, level, change, is_log, k):
     return level * change ** k if is_log else level + change * k
 
 
-def check(chk, ident, out, split, nvariants, flat_at="create"):
+def check(chk, ident, out, split, nvariants, flat_at="create", solver=None, start=1.5):
     m_ = out["m"]
     payload = {"kind": "steady", "id": ident, "src": list(out["src"]), "split_into_blocks": split, "variants": nvariants}
-    tag = "steady:%s:%s%s" % (ident, {None: "default", True: "blocks", False: "one-system"}[split], "" if flat_at == "create" else ":flat-at-solve")
-    desc = "model %s (%s) linear=%s flat=%s split_into_blocks=%s variants=%d" % (ident, " ".join(out["src"][-len(m_["eqs"]):]), m_["linear"], m_["flat"], split, nvariants)
+    tag = "steady:%s:%s%s" % (ident, {None: "default", True: "blocks", False: "one-system"}[split], "" if flat_at == "create" else ":flat-at-solve") + ("" if solver is None else ":" + solver) + ("" if start == 1.5 else ":start=%g" % start)
+    desc = ("" if solver is None else "solver=%s " % solver) + ("" if start == 1.5 else "start=%g " % start) + "model %s (%s) linear=%s flat=%s split_into_blocks=%s variants=%d" % (ident, " ".join(out["src"][-len(m_["eqs"]):]), m_["linear"], m_["flat"], split, nvariants)
     try:
         # the flat flag can be given when the model is created or when the steady state is solved
         m = ir.Simultaneous.from_string("\n".join(out["src"]) + "\n", linear=bool(m_["linear"]), flat=bool(m_["flat"]) and flat_at == "create")
@@ -33,7 +33,7 @@ def check(chk, ident, out, split, nvariants, flat_at="create"):
             m.alter_num_variants(nvariants)
         if len(m_["pars"]):
             m.assign(**{n: float(fr(v)) for (n, v) in m_["pars"]})
-        m.assign(**{n: 1.5 for n in m_["vars"]})
+        m.assign(**{n: start for n in m_["vars"]})
         for (n, v) in m_.get("assign", ()):                  # levels that stay as assigned (unit roots)
             m.assign(**{n: float(fr(v))})
         for (n, lv_, ch_) in m_["xvars"]:                     # exogenous variables: assigned level and (in flat mode: to be ignored) change
@@ -55,6 +55,8 @@ def check(chk, ident, out, split, nvariants, flat_at="create"):
             kw["split_into_blocks"] = split
         if m_["flat"] and flat_at == "solve":
             kw["flat"] = True
+        if solver is not None:
+            kw["solver"] = solver
     except Exception as ex:
         chk.mismatch(tag + ":setup:" + type(ex).__name__, desc + ": setting up raised %r" % (ex,), payload)
         return False
@@ -125,6 +127,18 @@ def run(chk):
                     n += 1
                     completed += bool(ok)
                     per_model[st["sc"]] = per_model.get(st["sc"], 0) + bool(ok)
+                    if not st["out"]["m"]["linear"] and nv == 1 and flat_at == "create":
+                        # the optional solver: completion is not required, a completed solve must satisfy the equations
+                        ok2 = check(chk, st["sc"], st["out"], split, nv, flat_at, solver="scipy_root")
+                        n += 1
+                        completed += bool(ok2)
+                        # further starting values where the instance says its solution is unique over the reals
+                        for a in st["out"]["m"].get("altstart", ()):
+                            for solver in (None, "scipy_root"):
+                                ok3 = check(chk, st["sc"], st["out"], split, nv, flat_at, solver=solver, start=float(fr(a)))
+                                n += 1
+                                completed += bool(ok3)
+                                per_model[st["sc"]] = per_model.get(st["sc"], 0) + bool(ok3)
         if st["sc"] == "S2":
             chk.sample({"model": st["sc"], "source": list(st["out"]["src"]), "spec_levels": _plain(st["out"]["m"]["level"]), "spec_changes": _plain(st["out"]["m"]["change"]),
                         "plan_fix": _plain(st["out"]["m"]["fix"])})
